@@ -6,7 +6,7 @@ from ..kernels import KernelEval, check_kernel, FAMILIES, MODES, BACKENDS
 from ..purity import table_purity
 
 
-def check_never_negative(ctx):
+def check_never_negative(ctx, rule="R3-never-negative"):
     """R3: the scatter slot of every kernel is non-negative by construction in floating point (sign analysis E8)."""
     import ast
     from ..signs import Signs, NONNEG, CANCEL
@@ -29,13 +29,13 @@ def check_never_negative(ctx):
                 sg, wit, wkey = S.ret_slot(key, 4)
                 where = ctx.repo.where(key, ctx.repo.get(key))
                 if sg == NONNEG:
-                    ctx.holds("R3-never-negative", key, "M2 is a mean of sums of squares (or 0) on every return: non-negative whatever the rounding", where)
+                    ctx.holds(rule, key, "M2 is a mean of sums of squares (or 0) on every return: non-negative whatever the rounding", where)
                 elif sg == CANCEL:
-                    ctx.violated("R3-never-negative", key, f"M2 is computed in {wkey} as a difference of two non-negative aggregates ({' '.join(ast.unparse(wit).split())[:120]}): "
+                    ctx.violated(rule, key, f"M2 is computed in {wkey} as a difference of two non-negative aggregates ({' '.join(ast.unparse(wit).split())[:120]}): "
                                  "the single-pass form E|z|^2-|E z|^2 cancels catastrophically for quasi-deterministic data, rounding makes the variance negative and its root NaN",
                                  f"{wkey.split('::')[0]}:{getattr(wit, 'lineno', 0)}")
                 else:
-                    ctx.unknown("R3-never-negative", key, f"sign of the scatter slot not decided at {' '.join(ast.unparse(wit).split())[:100] if wit is not None else '?'} in {wkey}", where)
+                    ctx.unknown(rule, key, f"sign of the scatter slot not decided at {' '.join(ast.unparse(wit).split())[:100] if wit is not None else '?'} in {wkey}", where)
     ctx.need("kernels with a sign-decided scatter slot", n, 18)
 
 
